@@ -101,7 +101,14 @@ def _task(t):
     viols = []
     dis = []
     name = O.expr_str(prog["expr"], prog["kinds"])
+    wide_div = n > 6 and prog["expr"][0] == "op" and prog["expr"][1] in ("floordiv", "mod", "divmod", "truediv", "pow", "lshift", "rshift")
     for vec in E.input_vectors(prog, vals):
+        if wide_div and len(vec) > 1 and abs(vec[1]) > 8:
+            # every remainder below the divisor is a witness (known finding KF-C02-quotient): the solution
+            # set grows with the divisor, and exponents / shift counts grow the values; wide bitlengths keep
+            # these second operands small and put the width on the first one
+            st["wide_skipped_large_second_operand"] = st.get("wide_skipped_large_second_operand", 0) + 1
+            continue
         if kind == "real":
             analyse(prog, vec, "plain", n, p, st, viols)
         elif kind == "reuse":
